@@ -44,7 +44,7 @@ RULE = ('one evaluation = one explored path (identity-equality pattern) of a scr
         'distinct = distinct (script, operation, decision trace) or distinct inputs; non-trivial = at least one re-wrapped node or a binder')
 EXPLANATION = ('identities are z3 integers; Term.__eq__ and the _id-based caches/short-cuts branch on them; per path the real result is compared with the reference; '
                'denotation of substitution/beta results is decided valid by z3 (uninterpreted sorts + arrays, finite-model fallback)')
-BUDGET_S = {'quick': 100, 'thorough': 1500}
+BUDGET_S = {'quick': 240, 'thorough': 1500}
 
 
 def bounds(tier):
@@ -842,6 +842,11 @@ def check_shared(i):
             ('beta_conv', lambda: Comb(ab, arg).beta_conv(), lambda: r_subst_bound(abe[2], arge)),
             ('beta_norm', lambda: Comb(ab, arg).beta_norm(), lambda: r_beta_norm(('@', abe, arge))),
             ('incr_boundvars', lambda: ab.incr_boundvars(1), lambda: r_incr(abe, 1)),
+            # the open body: the shared object's bound variable is loose at one position and bound at the other
+            ('incr_boundvars(body,1)', lambda: ab.body.incr_boundvars(1), lambda: r_incr(abe[2], 1)),
+            ('incr_boundvars(body,2)', lambda: ab.body.incr_boundvars(2), lambda: r_incr(abe[2], 2)),
+            # ... and as the argument substituted under another binder (which shifts its loose variables)
+            ('subst_bound(open argument)', lambda: under_binder().subst_bound(ab.body), lambda: r_subst_bound(export(under_binder())[2], abe[2])),
             ('abstract_over', lambda: ab.abstract_over(fam_y()), lambda: r_abstract(abe, export(fam_y())))):
         try:
             res = export(real_fn())
@@ -856,6 +861,15 @@ def check_shared(i):
         if res != ref:
             return 'shared-' + opname, '%s on the term %r (sub-object shared at two binder depths: %s) with argument %r gives %s, reference %s' % (opname, ab, name, arg, res, ref)
     return None, 'fine'
+
+
+def under_binder():
+    """%q. %w. k q w  (its body puts the substituted argument under the binder w)"""
+    from kernel.type import TFun
+    from kernel.term import Var, Comb, Abs, Bound
+    A = fam()['A']
+    k = Var('k', TFun(A, A, A))
+    return Abs('q', A, Abs('w', A, Comb(Comb(k, Bound(1)), Bound(0))))
 
 
 def fam_y():
